@@ -861,6 +861,59 @@ pub fn directed() -> Vec<Request> {
             }
         }
     }
+    // every generic parameter and where predicate of the dictionaries on a struct, an enum and an
+    // impl, alone and next to an ordinary parameter, all traits
+    {
+        let all = TRAITS.join(", ");
+        for g in crate::gen::GENERIC_PARAMS {
+            for item in [
+                format!("struct X<{g}>(u8);"),
+                format!("struct X<{g}, Z>(Z, Vec<Z>);"),
+                format!("enum X<Z, {g}> {{ A(Z), #[default] B {{ z: Option<Z> }} }}"),
+            ] {
+                out.push(Request { mode: Mode::Attr, attr: all.clone(), item: item.clone() });
+                out.push(Request { mode: Mode::Derive, attr: String::new(), item: format!("#[derive_ex(Clone, Debug, Default, Ord, PartialOrd, Eq, PartialEq, Hash, Add, Neg)] {item}") });
+            }
+            out.push(Request { mode: Mode::Attr, attr: "Add, AddAssign".into(), item: format!("impl<{g}> Add<&X<Z>> for X<Z> {{ type Output = X<Z>; }}") });
+            out.push(Request { mode: Mode::Attr, attr: "Sub".into(), item: format!("impl<Z, {g}> SubAssign for X<Z> {{ }}") });
+        }
+        for w in crate::gen::WHERE_PREDS {
+            for item in [
+                format!("struct X<'a, 'b, T, const N: usize>(&'a T, [u8; N]) where {w};"),
+                format!("enum X<'a, 'b, T, const N: usize> where {w}, {{ A(&'b T), #[default] B }}"),
+            ] {
+                out.push(Request { mode: Mode::Attr, attr: all.clone(), item: item.clone() });
+                out.push(Request { mode: Mode::Derive, attr: String::new(), item: format!("#[derive_ex(Clone, Debug, Default, PartialOrd, PartialEq, Hash, Sub)] {item}") });
+            }
+            out.push(Request { mode: Mode::Attr, attr: "Add, AddAssign".into(), item: format!("impl<'a, 'b, T, const N: usize> Add<&Self> for X<T> where {w} {{ type Output = Self; }}") });
+        }
+    }
+    // every hostile identifier as the type name, a field name, a variant name, a type parameter, a
+    // lifetime and a const parameter (the names the generator uses for its own locals and generics,
+    // raw identifiers, non-ASCII and very long names)
+    {
+        use crate::gen::ident_text;
+        let list = "Clone, Debug, Default, Ord, PartialOrd, Eq, PartialEq, Hash, Add, AddAssign, Neg";
+        for id in crate::gen::IDENTS {
+            let id = ident_text(id);
+            if id == "_" || id == "__" {
+                continue;
+            }
+            let bare = id.trim_start_matches("r#");
+            for item in [
+                format!("struct {id}<T>(T, u8);"),
+                format!("struct X<T> {{ {id}: T, #[ord(key = $.0)] other_field: (u8, u8) }}"),
+                format!("enum X<T> {{ {id}(T), #[default] Other {{ {id}: u8 }} }}"),
+                format!("struct X<{id}>({id}, Vec<{id}>);"),
+                format!("struct X<'{bare}, T>(&'{bare} T);"),
+                format!("struct X<const {id}: usize>([u8; {id}]);"),
+            ] {
+                out.push(Request { mode: Mode::Attr, attr: list.into(), item: item.clone() });
+            }
+            out.push(Request { mode: Mode::Derive, attr: String::new(), item: format!("#[derive_ex({list})] enum {id}<{id}> {{ {id} {{ {id}: {id} }} }}") });
+            out.push(Request { mode: Mode::Attr, attr: "Add, AddAssign".into(), item: format!("impl<{id}> Add<{id}> for X<{id}> {{ type Output = {id}; }}") });
+        }
+    }
     // normalise to the printed token form and drop what is not a valid request
     let mut res = Vec::new();
     let mut seen = std::collections::BTreeSet::new();
